@@ -1,7 +1,6 @@
 """C18 -- ECDH and ElligatorSwift exchanges agree with the group law and with each other."""
 import random
 from c01 import b32, edge_scalar, N, P
-from c17 import validate_strict
 LEVEL = "model_checking"
 MODULE = "C18_Ecdh.tla"
 TRACE = (MODULE, "C18_trace.cfg")
@@ -99,7 +98,7 @@ def run(chk):
     for v in (["std"] if quick else ["std", "verify", "i64", "noasm"]):
         chk.replay(recs, v, "generated boundary records")
     # T: encodings and exchanges produced by the library, decided by TLC
-    validate_strict(chk, driver(chk, 10 if quick else 100), MODULE, "C18_trace.cfg", "driver")
+    chk.validate(driver(chk, 10 if quick else 100), MODULE, "C18_trace.cfg", "driver", timeout=3000)
     return chk.finish(LEVEL,
         "Model: TLC checks the inverse/forward algebra of the map on a grid. G: TLC enumerates Cases of C18_Ecdh.tla and every record is executed on the "
         "real API (decode compared byte for byte, ECDH/XDH outputs and failure conditions). X: ECDH over every point and scalar encoding of the small "
